@@ -74,6 +74,7 @@ func (c *Chain) DumpState() V {
 
 // Recorder writes a history file: one genesis line, then one line per step.
 type Recorder struct {
+	Notes []string
 	w     *bufio.Writer
 	c     *Chain
 	Steps int
@@ -99,3 +100,5 @@ func (r *Recorder) Step(ctx V, opName string, op V, outcome string) {
 	r.Ops[opName]++
 	r.Outs[opName+":"+outcome]++
 }
+
+func (r *Recorder) Note(s string) { r.Notes = append(r.Notes, s) }
